@@ -12,6 +12,7 @@ package socks5
 //   FuzzVerifC17Args       argument string differential against the independent parser.
 
 import (
+	"os"
 	"strings"
 	"sync/atomic"
 	"testing"
@@ -80,8 +81,17 @@ func vfFuzzSeedsHandshake() [][]byte {
 	return seeds
 }
 
+// vfEvID: FuzzVerifC17Handshake is registered under C10 as well (no panic,
+// returns, bounded); its evidence goes to the property of the run.
+func vfEvID() string {
+	if id := os.Getenv("VERIF_PROPERTY"); id != "" {
+		return id
+	}
+	return "C17"
+}
+
 func FuzzVerifC17Handshake(f *testing.F) {
-	c := ev.For("C17")
+	c := ev.For(vfEvID())
 	c.Rule("fuzz-handshake: (client byte stream, chunk plan, flags) — the stream is cut into the messages of a step-by-step client by the independent decoder, each message released in chunks of (plan byte mod 32)+1 bytes (plan byte 0xff: the rest), then EOF or deadline expiry; oracle as in 'valid'/'malformed'; non-trivial = decoder got past the method selection")
 	for i, s := range vfFuzzSeedsHandshake() {
 		f.Add(s, []byte{}, byte(i))
